@@ -11,7 +11,7 @@ import (
 
 func init() { register("C19", checkC19) }
 
-var c19Names = []string{"TestS", "TestS/sub", "TestS/sub/deep", "TestT", "TestT#01", "TestÜ/ünï", "TestP/100%", "TestP/%d_lit", "TestP/%s%v", "TestQ/a_b"}
+var c19Names = []string{"TestS", "TestS/sub", "TestS/sub/deep", "TestT", "TestT#01", "TestÜ/ünï", "TestP/100%", "TestP/%d_lit", "TestP/%s%v", "TestQ/a_b", "TestV/v1.2", "TestV/v1.3", "TestV/input.json", "TestV/input.yaml"}
 
 // checkC19: standalone histories. Step() already decides per call: the outcome,
 // that the k-th call of an execution hits file k (the expected path is the one
@@ -59,6 +59,12 @@ func checkC19(c *vkit.Ctx) {
 						}
 					} else {
 						op.Fail = "matcher"
+						if r.IntN(2) == 0 {
+							// rejected only in the first execution (a flaky input): the same call of later
+							// executions is valid and must land in the same file k
+							op.FailOnlyExec = 1
+							h.Classes["call-rejected-only-in-first-execution"] = true
+						}
 					}
 					h.Classes["rejected-call-midway"] = true
 				}
